@@ -420,7 +420,12 @@ class DownloadNode:
                     umid="j60Ojg")
             when = now()
             if isinstance(result, Failure):
-                # this catches failures in decode or ciphertext hash
+                # this catches failures in decode or ciphertext hash. The
+                # fetcher for this segment has already stopped itself, so
+                # retire it here as well: otherwise _start_new_segment()
+                # below (and for every later read of this node) finds a dead
+                # fetcher still marked active and never starts another one.
+                self._active_segment = None
                 for (d,c,seg_ev) in self._extract_requests(segnum):
                     seg_ev.error(when)
                     eventually(self._deliver, d, c, result)
